@@ -16,14 +16,14 @@ claimed = {
  "C17": ("the three messages with a client-chosen user name: user = any bytes but newline; recorded address/port equal the appended ones", "§4 C17"),
  "C18": ("sequential histories of register/ready/request over three names; request racing with a registration and a ready-mark; WaitForReady against ready-mark/cancel with an environment-driven ticker", "§4 C18"),
  "C19": ("the C06 and C11 harnesses with the counter observation log: exactly one increment under the matching labels per emitted UserLogin, none for lines without a keyword", "§4 C19"),
- "C03": ("four concurrent programs (login || LOGIN record + event || events of another session || both cleanups) with symbolic PIDs; every interleaving at lock-acquisition granularity within a preemption bound; the observation must equal that of some sequential order, computed on fresh trackers; no delivery may block forever", "§4 C03"),
- "C07": ("'<pid> <pad><message>\\n' with symbolic bytes through the real named-pipe and syslog ingesters reaches the processor as exactly (pid, message); audit record lines with symbolic digits/tail parse identically with and without the newline through parseAuditLogs, go-libaudit's parser and reassembler", "§4 C07"),
+ "C03": ("five concurrent programs (login || LOGIN record + event || events of another session || both cleanups; login followed by the login clean-up || events of another session) with symbolic PIDs; every interleaving at lock-acquisition granularity within a preemption bound; the observation must equal that of some sequential order, computed on fresh trackers; no delivery may block forever", "§4 C03"),
+ "C07": ("'<pid> <pad><message>\\n' with symbolic bytes through the real named-pipe and syslog ingesters reaches the processor as exactly (pid, message), also for a message longer than the reader's 4096-byte buffer; audit record lines with symbolic digits/tail parse identically with and without the newline through parseAuditLogs, go-libaudit's parser and reassembler", "§4 C07"),
  "C08": ("the real cmd.RunNamedPipe (flag parsing, worker wiring, errgroup) executed in the engine with both pipes as FIFO models; eleven failure causes (either pipe at end-of-stream, unparsable audit line, either path not a named pipe, termination signal idle / after traffic / before the writers attach, worker failure while the other pipe has no writer yet); the daemon function must return - with a non-nil error for worker failures - in every explored schedule (quick: canonical schedule, thorough: at most two departures from it)", "§4 C08, §10.4, §10.7"),
  "C09": ("two sessions opened by one symbolic PID one after the other, each login line at any position, stray late records; map iteration order is a decision; ghost model per generation", "§4 C09"),
  "C13": ("blocking states (pipe waiting for a writer / idle / between records / after its writer went away, audit ingester with a full channel of capacity 0,1,2 directly and through its pipe, login hand-off to a never-ready correlator, idle audit processor); cancellation after quiescence; every schedule within the preemption bound must let the worker return and deliver nothing afterwards", "§4 C13"),
  "C15": ("parseAuditLogs with go-libaudit's real parser and reassembler behind it: K lines (well-formed / empty / malformed at any position) yield one event per well-formed line in order or an error naming the line; two compound events in every interleaving of their records are grouped by sequence; Auditd.Read returns the correlator's and the parser's errors", "§4 C15"),
  "C16": ("correlator histories with both cleanup calls at symbolic cut-offs placed anywhere, symbolic login times and clock readings; what is emitted afterwards must follow the window rule (survivors still correlate, discarded halves never emit late)", "§4 C16"),
- "C20": ("sortLogNamesOldToNew on symbolic rotation suffixes; rotatingFile.read on an in-memory file system under append/fragment/newline/rotate/truncate histories with symbolic bytes", "§4 C20"),
+ "C20": ("sortLogNamesOldToNew on symbolic rotation suffixes; rotatingFile.read on an in-memory file system under append/fragment/newline/rotate/truncate histories with symbolic bytes; readLines on a line longer than the 4096-byte buffer", "§4 C20, §10.5"),
 }
 pending = {}
 for p in []:
